@@ -1,12 +1,14 @@
 import O2P.Props.C01
 import O2P.Lemmas.ParseRender
+import O2P.Lemmas.WriterVocab
 /-!
 # C05 — emitted PlantUML is well-formed and names exactly the observed events (partial)
 The parser *is* the grammar of the dialect.  `parse_ok_core`/`parse_ok_tail`: a text `parse` accepts was
 accepted by the block parser (one `@startuml`, at most one partition and one group, every block closed by
 its own terminator in nested order, nothing after `@enduml`) and has `break`/`detach` only as the last
 item of a branch.  `runs_types`: the jobs of a diagram only carry its event names.
-The writer is not modelled: `C05_full` is decided on the generated definitions.
+The writer is modelled (M8 `O2P.Writer`, tied line by line to `PUMLGraph.write_puml_string`); `writer_vocabulary` is proved
+of it for every graph.  The walk that builds the graph is not modelled: `C05_full` is decided on the generated definitions.
 -/
 namespace O2P.Diagram
 
@@ -49,3 +51,33 @@ example :
        .groupEnd, .partEnd, .enduml]).toOption.isSome = false := by decide +kernel
 
 end O2P.Diagram
+
+namespace O2P.Writer
+
+/-- **C05, the writer's vocabulary**: for **every** PUML graph — any nodes, any edges, any nesting of loop sub graphs,
+whatever the walk built — the text `write_puml_string` emits is the fixed header, the fixed footer, and in between
+only lines that are, after their indentation, an operator string of `OPERATOR_NODE_PUML_MAP` (translated from the
+source on every run), `detach`, `break`, `repeat`, `repeat while`, or `:name;` where `name` is the name of an event
+node of the graph or of one of its sub graphs.  So an event name in the emitted file is always a node name (the
+"names ⊆" half of the clause), and a placeholder can only leak as the name of a node the walk left in the graph. -/
+theorem writer_vocabulary (g : PGraph) (name : String) (tab : Nat) (text : String)
+    (h : writePumlString g name tab = some text) :
+    ∃ ls, text = "\n".intercalate (["@startuml", spaces tab ++ "partition \"" ++ name ++ "\" {",
+        spaces (2 * tab) ++ "group \"" ++ name ++ "\""] ++ ls ++
+        [spaces (2 * tab) ++ "end group", spaces tab ++ "}", "@enduml"]) ∧
+      ∀ l ∈ ls, OkLine g.evNames l := by
+  unfold writePumlString at h
+  split at h
+  · simp at h
+  · rename_i ls hls
+    simp only [Option.some.injEq] at h
+    exact ⟨ls, h.symm, (lines_ok _).1 g _ _ ls hls⟩
+
+/-- non-vacuity: `A; switch { B | C }` as the graph the walk builds is written (the result is `some`), so the
+hypothesis of `writer_vocabulary` is met by a graph with a fork -/
+example :
+    (writePumlString (.mk [.ev "A" false, .oper .start .xor, .ev "B" false, .ev "C" false, .oper .end_ .xor]
+      [[1], [2, 3], [4], [4], []]) "wf").isSome = true := by decide +kernel
+
+end O2P.Writer
+
